@@ -261,4 +261,99 @@ Proof.
     + intros p (p0 & (Hp1 & Hp2 & _) & _). exact (H p0 Hp1 Hp2).
 Qed.
 
+
+(* ---------------------------------------------------------------------- *)
+(* the backward scan: mirrored coordinates <-> forward coordinates *)
+Notation last_before := (last_before ceq ic).
+Notation nth_match_back := (nth_match_back ceq ic).
+
+Lemma occ_rev_iff needle B p : (p + length needle <= length B)%nat ->
+  (occurs_at needle B p <->
+   C16_SearchSpec.occurs_at ceq ic (rev needle) (rev B) (length B - p - length needle)).
+Proof.
+  intros Hb. split; [apply occurs_at_rev|].
+  intros H. apply occurs_at_rev in H. rewrite !rev_involutive, !rev_length in H.
+  replace (length B - (length B - p - length needle) - length needle)%nat with p in H by lia. exact H.
+Qed.
+
+Lemma first_to_last needle B lo r : (lo <= length B)%nat ->
+  C16_SearchSpec.first_from ceq ic (rev needle) (rev B) lo r ->
+  (r + length needle <= length B)%nat /\
+  last_before needle B (length B - lo) (length B - r - length needle).
+Proof.
+  intros Hlo (H1 & H2 & H3).
+  pose proof (occurs_at_bound _ _ _ H2) as Hb. rewrite !rev_length in Hb. split; [exact Hb|].
+  split; [lia|]. split.
+  - apply (proj2 (occ_rev_iff needle B (length B - r - length needle)%nat ltac:(lia))).
+    replace (length B - (length B - r - length needle) - length needle)%nat with r by lia. exact H2.
+  - intros o Ho Hoh Hocc. apply (H3 (length B - o - length needle)%nat); [lia|].
+    apply (proj1 (occ_rev_iff needle B o ltac:(lia))). exact Hocc.
+Qed.
+
+Lemma last_to_first needle B hi p : (hi <= length B)%nat ->
+  last_before needle B hi p ->
+  C16_SearchSpec.first_from ceq ic (rev needle) (rev B) (length B - hi) (length B - p - length needle).
+Proof.
+  intros Hhi (H1 & H2 & H3). split; [lia|]. split.
+  - apply (proj1 (occ_rev_iff needle B p ltac:(lia))). exact H2.
+  - intros o Ho Hocc. pose proof (occurs_at_bound _ _ _ Hocc) as Hb. rewrite !rev_length in Hb.
+    apply (H3 (length B - o - length needle)%nat); [lia|lia|].
+    apply (proj2 (occ_rev_iff needle B (length B - o - length needle)%nat ltac:(lia))).
+    replace (length B - (length B - o - length needle) - length needle)%nat with o by lia. exact Hocc.
+Qed.
+
+Lemma nth_to_back needle B : forall k lo r, (lo <= length B)%nat ->
+  C16_SearchSpec.nth_match ceq ic (rev needle) (rev B) lo k r ->
+  (r + length needle <= length B)%nat /\
+  nth_match_back needle B (length B - lo) k (length B - r - length needle).
+Proof.
+  induction k as [|k IH]; intros lo r Hlo H.
+  - apply first_to_last; assumption.
+  - destruct H as (r0 & Hf & Hn). rewrite rev_length in Hn.
+    destruct (first_to_last _ _ _ _ Hlo Hf) as [Hb0 Hl].
+    destruct (nth_match_occ _ _ _ _ _ Hn) as [Hge Hocc].
+    pose proof (occurs_at_bound _ _ _ Hocc) as Hb. rewrite !rev_length in Hb.
+    destruct (IH (r0 + Nat.max 1 (length needle))%nat r ltac:(lia) Hn) as [_ Hback].
+    split; [exact Hb|]. exists (length B - r0 - length needle)%nat. split; [exact Hl|]. split; [lia|].
+    replace (length B - r0 - length needle + length needle - Nat.max 1 (length needle))%nat
+      with (length B - (r0 + Nat.max 1 (length needle)))%nat by lia. exact Hback.
+Qed.
+
+Lemma back_to_nth needle B : forall k hi p, (hi <= length B)%nat ->
+  nth_match_back needle B hi k p ->
+  C16_SearchSpec.nth_match ceq ic (rev needle) (rev B) (length B - hi) k (length B - p - length needle).
+Proof.
+  induction k as [|k IH]; intros hi p Hhi H.
+  - apply last_to_first; assumption.
+  - destruct H as (p0 & Hl & Hg & Hn). pose proof Hl as (Hp0 & _ & _).
+    exists (length B - p0 - length needle)%nat. split; [apply last_to_first; assumption|].
+    rewrite rev_length.
+    specialize (IH (p0 + length needle - Nat.max 1 (length needle))%nat p ltac:(lia) Hn).
+    replace (length B - p0 - length needle + Nat.max 1 (length needle))%nat
+      with (length B - (p0 + length needle - Nat.max 1 (length needle)))%nat by lia. exact IH.
+Qed.
+
+(* occurrences ending inside a prefix are the prefix's occurrences *)
+Lemma last_before_firstn needle t (c hi p : nat) : (c <= length t)%nat -> (hi <= c)%nat ->
+  (last_before needle (firstn c t) hi p <-> last_before needle t hi p).
+Proof.
+  intros Hc Hhi. split; intros (H1 & H2 & H3).
+  - split; [exact H1|]. split; [apply (occurs_at_firstn needle t c p Hc) in H2; apply H2|].
+    intros o Ho Hoh Hocc. apply (H3 o Ho Hoh). apply occurs_at_firstn; [exact Hc|]. split; [exact Hocc|lia].
+  - split; [exact H1|]. split; [apply occurs_at_firstn; [exact Hc|split; [exact H2|lia]]|].
+    intros o Ho Hoh Hocc. apply (H3 o Ho Hoh). apply (occurs_at_firstn needle t c o Hc) in Hocc. apply Hocc.
+Qed.
+
+Lemma nth_back_firstn needle t (c : nat) : (c <= length t)%nat -> forall k hi p, (hi <= c)%nat ->
+  (nth_match_back needle (firstn c t) hi k p <-> nth_match_back needle t hi k p).
+Proof.
+  intros Hc. induction k as [|k IH]; intros hi p Hhi.
+  - apply last_before_firstn; assumption.
+  - cbn [C16_SearchSpec.nth_match_back]. split; intros (p0 & Hl & Hg & Hn); exists p0.
+    + pose proof Hl as (Hp0 & _ & _). split; [apply (last_before_firstn needle t c hi p0 Hc Hhi); exact Hl|].
+      split; [exact Hg|]. apply IH; [lia|exact Hn].
+    + pose proof Hl as (Hp0 & _ & _). split; [apply (last_before_firstn needle t c hi p0 Hc Hhi); exact Hl|].
+      split; [exact Hg|]. apply IH; [lia|exact Hn].
+Qed.
+
 End Facts.
